@@ -9,11 +9,39 @@ GenScen == IF ScanSubsets
                          scan |-> SetToSeq(sub)] : sub \in SUBSET PriorCopies(s)} : s \in Scenarios}
            ELSE {[sz |-> s.sz, src |-> s.src, prior |-> s.prior, seeds |-> s.seeds, inplace |-> s.inplace] : s \in Scenarios}
 
+\* Larger, structured layouts (sampled, -seed): sources and prior outputs of NBigMin..NBigMax chunks over KBig identities
+\* with sizes 1..4 units, foreign items in between; rotations, reversals and interleavings make long cycles and deep chains likely.
+CONSTANTS NBig, KBig, NBigMin, NBigMax
+BigIds == 1..KBig
+RandSeq(S, n) == [i \in 1..n |-> RandomElement(S)]
+Rotate(q, k) == [i \in 1..Len(q) |-> q[((i + k - 1) % Len(q)) + 1]]
+Reverse2(q) == [i \in 1..Len(q) |-> q[Len(q) + 1 - i]]
+BigOne(i) ==
+  LET szs == RandSeq(1..4, KBig)
+      n == RandomElement(NBigMin..NBigMax)
+      src == RandSeq(BigIds, n)
+      base == CASE i % 5 = 0 -> Rotate(src, RandomElement(1..n))                  \* one long cycle
+                [] i % 5 = 1 -> Reverse2(src)                                      \* every chunk moves, many overlaps
+                [] i % 5 = 2 -> RandSeq(BigIds, RandomElement(NBigMin..NBigMax))   \* unrelated arrangement of the same identities
+                [] i % 5 = 3 -> Rotate(Reverse2(src), RandomElement(1..n))
+                [] OTHER -> [j \in 1..n |-> IF j % 2 = 0 THEN src[j] ELSE src[((j * 7) % n) + 1]]
+      prior == [j \in 1..Len(base) |-> IF RandomElement(1..6) = 1 THEN <<0, RandomElement(1..3)>> ELSE <<base[j], 0>>]
+  IN [sz |-> szs, src |-> src, prior |-> prior, seeds |-> IF i % 7 = 0 THEN <<RandSeq(BigIds, 3)>> ELSE <<>>, inplace |-> TRUE, big |-> i]
+BigScen == {BigOne(i) : i \in 1..NBig}
+\* the same sampled layouts as initial states of the clone machine: the Planner transcription and the executor are
+\* model-checked on long cycles and deep chains too (exhaustive over the sampled initial states)
+InitBig == /\ \E b \in BigScen : sc = [sz |-> b.sz, src |-> b.src, prior |-> b.prior, seeds |-> b.seeds, inplace |-> TRUE, scan |-> {}]
+           /\ out = PriorFile(sc)
+           /\ scan = {} /\ rem = [id \in IdsOf(sc) |-> {}] /\ mem = <<>> /\ plan = <<>> /\ cur = NoCur
+           /\ seedpos = <<1, 1>> /\ fetch = <<>> /\ phase = "start" /\ run = 1
+           /\ written = {} /\ fetched = {} /\ bad = ""
 VARIABLE x
+InitBigX == InitBig /\ x = 0
+NextBigX == Next /\ UNCHANGED x
 GInit == /\ x = 0 /\ sc = 0 /\ out = 0 /\ scan = 0 /\ rem = 0 /\ mem = 0 /\ plan = 0 /\ cur = 0 /\ seedpos = 0
          /\ fetch = 0 /\ phase = 0 /\ run = 0 /\ written = 0 /\ fetched = 0 /\ bad = 0
 GNext == UNCHANGED <<x, vars>>
 Post == /\ TLCGet("stats").diameter >= 0
-        /\ ndJsonSerialize(IOEnv.GEN_OUT, SetToSeq(GenScen))
-        /\ PrintT(<<"GENERATED", Cardinality(GenScen)>>)
+        /\ ndJsonSerialize(IOEnv.GEN_OUT, IF NBig > 0 THEN SetToSeq(BigScen) ELSE SetToSeq(GenScen))
+        /\ PrintT(<<"GENERATED", IF NBig > 0 THEN Cardinality(BigScen) ELSE Cardinality(GenScen)>>)
 =============================================================================
